@@ -9,7 +9,9 @@ ASSUMPTIONS = ['A-CALLABLE: the likelihood callbacks are deterministic functions
                'A-PARAM: the TOML-backed attributes of BIOGEME (optimization_algorithm, max_iterations, initial_radius, ...) are dynamic properties that return the stored value: read as plain fields',
                'assumed contracts (verify=False): BIOGEME.is_model_complex and Expression.requires_draws (pure, boolean; they only select a message / the automatic Hessian proportion)',
                'bio_newton / bio_bfgs: the parameter dict is not the same object as the bounds list or the list of names (a dict is not a list)',
-               'biogeme_optimization.bounds.Bounds(list) and scipy turn None into -/+ infinity themselves (inside the dependency)']
+               'biogeme_optimization.bounds.Bounds(list) and scipy turn None into -/+ infinity themselves (inside the dependency)',
+               'precondition of NegativeLikelihood._f_g / _f_g_h (round 3, replaces check_safe=False): the derivative callback returns the gradient (and the Hessian when asked); the callback installed by BIOGEME.optimize is calculate_likelihood_and_derivatives, whose contract gives arrays',
+               'RawResults.__init__: the fields g, H, bhhh, bootstrap, gradientNorm, initLogLike, nullLogLike are typed by what is stored (Optional / any), not by the source annotation (which the stored value need not satisfy)']
 EXPLANATION = ('Proved: the function handed to the optimisers is exactly minus the unscaled likelihood, with gradient and Hessian negated and requested only when needed. '
                'Feasibility, improvement, stationarity and cross-algorithm agreement are properties of external optimisers (assumed), sampled together with the final evaluation, '
                'packaging and write-back by a bounded estimation harness on generated concave problems. '
@@ -76,6 +78,33 @@ ok = (f == -3.5 and fg.function == -3.5 and np.array_equal(fg.gradient, [-1.0, 2
 violated = not ok
 detail = f'f={f} fg={fg} fgh={fgh} calls={calls}'
 """}
+
+
+# round 3 (m1): replay of the static obligation of _set_algorithm_parameters: both branches of the automatic algorithm on the real code
+REPLAYS['C07:static:biogeme.BIOGEME._set_algorithm_parameters:locals-assigned-before-use'] = """
+import warnings; warnings.simplefilter('ignore')
+import pandas as pd
+from biogeme.expressions import Beta, Variable
+from biogeme.database import Database
+from biogeme.biogeme import BIOGEME
+from biogeme.parameters import Parameters
+db = Database('d', pd.DataFrame({'x': [1.0, 2.0, 4.0], 'y': [0.5, 0.1, 0.2]}))
+f = -(Beta('b', 0.3, None, None, 0) * Variable('x') - Variable('y')) ** 2
+violated, detail = False, ''
+for algo in ('automatic', 'simple_bounds', 'simple_bounds_newton', 'simple_bounds_BFGS', 'TR-newton', 'TR-BFGS', 'LS-newton', 'LS-BFGS', 'scipy'):
+    for complex_model in (False, True):
+        p = Parameters()
+        p.set_value('optimization_algorithm', algo, section='Estimation')
+        b = BIOGEME(db, f, parameters=p)
+        b.is_model_complex = lambda c=complex_model: c
+        try:
+            b._set_algorithm_parameters()
+        except Exception as e:
+            violated, detail = True, f'_set_algorithm_parameters with algorithm {algo!r} (complex model: {complex_model}) raises {type(e).__name__}: {e}'
+            break
+    if violated:
+        break
+"""
 
 
 def extra(tier, seed):
